@@ -24,6 +24,14 @@ on every real case; JUDGED = decided on every real output by the Lean judge `Jud
 1. "the reported changed ranges are sorted, disjoint"
    * PROVED for the building blocks: `add_sorted` (`ts_range_array_add`), `symDiff_spec` (the included-range
      difference: sorted, strictly separated, no empty range), `intersects_spec` (the override test is exact).
+   * PROVED for ARBITRARY call sequences (`Round11.lean`, no tree involved): `add_calls_sorted` (non-decreasing
+     starts + non-empty calls ⇒ sorted/strictly separated/non-empty, ends ≤ largest end handed over),
+     `add_calls_wellformed` (`s ≤ e` only ⇒ `start ≤ end`; `empty_range_witness`), `add_calls_exact` (positions never
+     go backwards ⇒ covers exactly the union of the spans), `add_calls_sound` (NO premise: no invented byte),
+     the EXACT premise `add_step_exact` / `add_calls_strict_iff` (`keepsStrict`), and `decreasing_start_witness`
+     (`(5,6) (0,1)` leaves `[5,1)`).  For the walk: `changed_ranges_sound` (ALL tree pairs, no premise: every reported
+     byte lies in a span the walk handed to `add`) and `changed_ranges_exact` (sized trees + `entryOK`: reported bytes
+     = exactly the union of those spans).
    * PARTIAL for the walk — `changed_sorted_bounded` + `changed_nonempty`: sorted, pairwise STRICTLY separated
      (`prev.end < next.start`: adjacent ranges are merged), no empty range.  Premises: both trees sized
      (`AllSized`, via `allSizedB`: true of every real tree seen, edited ones included), the loop starts inside both
